@@ -6,7 +6,9 @@
  *     upd n=<k> <rect> <rect> ...       rect = hex(12-byte header ++ payload before compression)
  * Script (stdin), one op per line:
  *   case <n> <label>            new case (previous screen is destroyed)
- *   screen <w> <h> <bytespp>    create screen (server format: vs_screen defaults), connect, handshake
+ *   screen <w> <h> <bytespp> [<depth> <be> <rmax> <gmax> <bmax> <rs> <gs> <bs> <economic>]
+ *                               create screen (server format: vs_screen defaults unless given; economic =
+ *                               the public switch rfbEconomicTranslate), connect, handshake
  *   fmt <bpp> <depth> <be> <tc> <rmax> <gmax> <bmax> <rs> <gs> <bs>    SetPixelFormat
  *   enc <name> [compresslevel|-] [quality|-]                            SetEncodings
  *   corre <mw> <mh>             set cl->correMaxWidth/Height (application knob)
@@ -279,10 +281,20 @@ int main(void) {
     if (!strcmp(op, "case")) { teardown(); printf("%s\n", line); fflush(stdout); continue; }
     if (!strcmp(op, "screen")) {
       teardown();
-      if (sscanf(line + pos, "%d %d %d", &sw, &sh, &sbypp) != 3) { printf("bad-screen\n"); continue; }
+      int sf[9], nsf;
+      nsf = sscanf(line + pos, "%d %d %d %d %d %d %d %d %d %d %d %d", &sw, &sh, &sbypp, &sf[0], &sf[1], &sf[2], &sf[3], &sf[4],
+                   &sf[5], &sf[6], &sf[7], &sf[8]);
+      if (nsf != 3 && nsf != 12) { printf("bad-screen\n"); continue; }
       scr = vs_screen(sw, sh, sbypp);
       if (!scr) { printf("no-screen\n"); continue; }
       scr->cursor = NULL;
+      rfbEconomicTranslate = FALSE;
+      if (nsf == 12) {                 /* application-chosen server pixel format, set before any client connects */
+        scr->serverFormat.depth = sf[0]; scr->serverFormat.bigEndian = sf[1];
+        scr->serverFormat.redMax = sf[2]; scr->serverFormat.greenMax = sf[3]; scr->serverFormat.blueMax = sf[4];
+        scr->serverFormat.redShift = sf[5]; scr->serverFormat.greenShift = sf[6]; scr->serverFormat.blueShift = sf[7];
+        rfbEconomicTranslate = sf[8] ? TRUE : FALSE;
+      }
       cl = connect_fast(scr, &peer, &in);
       if (!cl) { printf("handshake-failed\n"); continue; }
       cbypp = sbypp; cdepth = scr->serverFormat.depth; cbe = scr->serverFormat.bigEndian;
